@@ -3,7 +3,7 @@
 From Coq Require Import List NArith ZArith Bool Lia.
 From K.Gen Require Import C10_consts.
 From K.Model Require Import C10.
-From K.Proof Require Import C10_base C10_pass C10_policy.
+From K.Proof Require Import C10_base C10_pass C10_policy C10_press.
 Import ListNotations.
 Local Open Scope Z_scope.
 
@@ -191,15 +191,23 @@ Lemma chk_exact_sound : forall tti ttl u scan s,
   wf s -> NoDup scan ->
   chk_exact (cap s) tti ttl (now s) scan (dk s) (keys (fm s)) (dk (ttl_pass tti ttl 0 u scan s)) = true.
 Proof.
-  intros tti ttl u scan s W ND. unfold chk_exact. destruct (roomy (cap s) (dk s)) eqn:R; auto.
-  apply roomy_iff in R. apply forallb_forall. intros [n f] Hin. cbn [fst snd].
-  destruct W as (A & B & C).
-  pose proof (In_aget n f (dk s) A Hin) as Hn.
-  pose proof (ttl_pass_exact tti ttl u scan s (conj A (conj B C)) R ND n) as Hx.
-  unfold amem. rewrite Hx. unfold ttl_after. rewrite Hn, memb_keys_amem. unfold ttl_due.
-  destruct (memb n scan); cbn [andb].
-  - destruct (negb (is_persisted f) && ready tti ttl (now s) (seen (amem n (fm s)) (now s) f)); reflexivity.
-  - reflexivity.
+  intros tti ttl u scan s W ND. unfold chk_exact. apply forallb_forall. intros [n f] Hin. cbn [fst snd].
+  pose proof W as (A & B & C).
+  pose proof (In_aget n f (dk s) A Hin) as Hn. rewrite memb_keys_amem.
+  destruct (roomy (cap s) (dk s)) eqn:R.
+  - apply roomy_iff in R.
+    pose proof (ttl_pass_exact tti ttl u scan s W R ND n) as Hx.
+    unfold amem at 1. rewrite Hx. unfold ttl_after. rewrite Hn. unfold ttl_due.
+    destruct (memb n scan); cbn [andb].
+    + destruct (negb (is_persisted f) && ready tti ttl (now s) (seen (amem n (fm s)) (now s) f)); reflexivity.
+    + reflexivity.
+  - destruct (memb n scan && negb (is_persisted f)
+              && ready tti ttl (now s) (seen (amem n (fm s)) (now s) f)) eqn:Ed; [|reflexivity].
+    apply andb_true_iff in Ed. destruct Ed as [Ed E3]. apply andb_true_iff in Ed. destruct Ed as [E1 E2].
+    apply memb_In in E1.
+    assert (Hdue : ttl_due tti ttl (now s) (amem n (fm s)) f = true).
+    { unfold ttl_due. rewrite E2, E3. reflexivity. }
+    unfold amem at 1. rewrite (ttl_pass_due_removed tti ttl u scan s n f W Hn E1 Hdue). reflexivity.
 Qed.
 
 (* ---------------------------------------------------------------- clause 3 *)
@@ -645,6 +653,20 @@ Proof.
   cbn zeta. split; [repeat constructor; cbn; intuition discriminate|].
   split; [|vm_compute; auto].
   vm_compute. intros k [<-|[<-|[<-|[]]]]; auto.
+Qed.
+
+(* with or without room in the map: the listed, unprotected, idle-or-expired files are gone *)
+Theorem cleanup_due_removed_stmt : forall c0 t0 ops c pol u scan order m f,
+  let s := fst (run (init c0 t0) ops) in
+  should_aggro c u = false -> In m scan -> aget m (dk s) = Some f ->
+  is_persisted f = false ->
+  ready (c_tti c) (c_ttl c) (now s) (seen (amem m (fm s)) (now s) f) = true ->
+  aget m (dk (fst (cleanup c pol u scan order s))) = None.
+Proof.
+  intros c0 t0 ops c pol u scan order m f s Ag Hin Hf Hp Hr. unfold cleanup. rewrite Ag. cbn [andb fst].
+  apply ttl_pass_due_removed with (f := f); auto.
+  - apply reachable_wf.
+  - unfold ttl_due. rewrite Hp, Hr. reflexivity.
 Qed.
 
 Theorem policy_pass_stmt2 : forall c0 t0 ops thr tot scan order s',
